@@ -81,9 +81,8 @@ def step (s : St) (line : String) : St × String :=
 
 /-! ### executable statement of C17 for the handlers, on the implementation's answers:
     the counter always equals the number of records (`count-mismatch`); at `end`, when every tunnel
-    has been closed or lost its destination, nothing is left (`not-empty`).  Histories in which two
-    opens used the same bare stream id while the first record was still present are tagged
-    `c17-collision-…` (known finding). -/
+    has been closed or lost its destination, nothing is left (`not-empty`) — for every history,
+    re-used and colliding stream ids included (repaired handlers). -/
 
 structure SpecSt where
   liveIds : List (String × Nat) := []   -- ids with a record according to the protocol history
@@ -130,9 +129,9 @@ def specStep (s : SpecSt) (l : String) : SpecSt × String :=
       | none => (s'', "fail unparsable-output")
       | some (ce, cf) =>
         if ce != (nEx : Int) || cf != (nFw : Int) then
-          (s'', if s''.collided then "fail c17-collision-count" else "fail c17-count-mismatch")
+          (s'', "fail c17-count-mismatch")
         else if op.trimAscii.toString == "end" && (nEx + nFw != 0) then
-          (s'', if s''.collided then "fail c17-collision-count" else "fail c17-not-empty")
+          (s'', "fail c17-not-empty")
         else (s'', "ok")
   | _ => (s, "bad-op")
 
